@@ -112,6 +112,14 @@ def create_machine(
     # -------------------------------------------------------------------------
     # ☝️ Step 1: Determine the Source of Business Logic
     # -------------------------------------------------------------------------
+    # 🛡️ Everything below subscripts the config; a list, string or number
+    #    used to surface as a raw AttributeError from the logic loader.
+    if not isinstance(config, dict):
+        raise InvalidConfigError(
+            "Invalid config: must be a dict with 'id' and 'states' keys, "
+            f"got '{type(config).__name__}'."
+        )
+
     final_logic: MachineLogic
     if logic:
         # ✅ Path 1: Use the explicitly provided logic instance.
